@@ -196,6 +196,10 @@ def run(ctx):
         stats["assignments_with_panic"] += np_
         if np_ and sum(1 for r in c["reqs"] if r[0] == "panic_if") >= 2:
             distinct.add(json.dumps(c["reqs"]))
+    # part (b): whole programs — panic iff the source semantics fail, with the reason of the first failing operation
+    from . import c01
+    pfs, ptally, pstats, pcases = c01.collect(ctx, 800 if quick else 15000, {}, prefix="c02:program", strict_reason=True)
+    failures += pfs
     seen_sig, uniq = set(), []
     for f in failures:
         if f.signature not in seen_sig:
@@ -207,11 +211,14 @@ def run(ctx):
                 "save/restore around branches, mux_panic merges) through the real CircuitBuilder and the Lean model: identical gate "
                 "lists and circuits; on ALL input assignments the decoded record must equal the abstract panic state (first failure "
                 "wins, reason and location exact when the flag is set); non-trivial = distinct sequence with >= 2 panic sites that "
-                "panics on at least one assignment",
+                "panics on at least one assignment. part (b): generated whole programs (tools/gv/gen_prog.py) on 6 argument tuples "
+                "each: the circuit's panic flag must be set exactly when the Lean source semantics reach a failing operation, with "
+                "the reason of the first failing operation in evaluation order (overflow, division by zero, out of bounds); code "
+                "in branches not taken and short-circuited operands must stay silent",
         "traces_validated_against_impl": len(cases),
-        "distribution": stats,
+        "distribution": dict(stats, program_level_runs=ptally),
         "samples": [cases[1], cases[-1]],
     }
     assumptions = ["when the flag is clear the 160 information bits are unspecified (they are not compared)",
-                   "program-level part of C02 (source semantics vs circuit) is covered by the language-level checks (C01 machinery)"]
+                   "program level: the reported source location is not compared (the generator does not track columns)"]
     return common.finish(ctx, uniq, coverage, assumptions, "proof", search=None)
